@@ -150,6 +150,23 @@ func lexeme(c, guard string) string {
 		return "out-evil"
 	case "sibtxt":
 		return "output.txt"
+	// names that are hostile only after a transformation (prefix stripping, trimming)
+	case "whdd":
+		return ".wh..."
+	case "whdot":
+		return ".wh.."
+	case "wh":
+		return ".wh."
+	case "whopq":
+		return ".wh..wh..opq"
+	case "whxf":
+		return ".wh.xf"
+	case "ddsp":
+		return ".. "
+	case "dots3":
+		return "..."
+	case "tdot":
+		return "nm."
 	}
 	return c // a, b, d, f, ...
 }
@@ -197,7 +214,24 @@ func statLine(p string, fi fs.FileInfo) string {
 	if fi.IsDir() {
 		size = 0
 	}
-	return fmt.Sprintf("%s|%d|%d|%o|%d|%d|%s", fi.Mode().Type().String(), size, fi.ModTime().UnixNano(), fi.Mode().Perm(), ino, nlink, tgt)
+	sum := ""
+	if fi.Mode().IsRegular() && size <= 1<<16 && hashed(p) {
+		if b, err := os.ReadFile(p); err == nil {
+			sum = sha(b)[7:23]
+		}
+	}
+	return fmt.Sprintf("%s|%d|%d|%o|%d|%d|%s|%s", fi.Mode().Type().String(), size, fi.ModTime().UnixNano(), fi.Mode().Perm(), ino, nlink, tgt, sum)
+}
+
+// hashed: contents are part of the listing for the guard files (everything of a guard directory that is not the designated
+// directory, the source layout or regctl's home) - a modification that keeps size and mtime would still show
+func hashed(p string) bool {
+	for _, d := range []string{"/out/", "/src/", "/home/", "/tpl/"} {
+		if strings.Contains(p, d) {
+			return false
+		}
+	}
+	return true
 }
 
 func listTree(dir string, into map[string]string) {
@@ -361,6 +395,7 @@ func layerTar(hdrFmt, comp string) []byte {
 		{tar.TypeReg, "../out-evil/f", "", []byte("file in sibling directory")},
 		{tar.TypeReg, "d/../../output.txt", "", []byte("sibling file behind d/..")},
 		{tar.TypeReg, "../victim", "", []byte("OVERWRITTEN BY LAYER 2")},
+		{tar.TypeReg, ".wh...", "", nil},
 	}, hdrFmt, comp)
 }
 
@@ -651,6 +686,8 @@ func kindByte(k string) byte {
 		return tar.TypeLink
 	case "fifo":
 		return tar.TypeFifo
+	case "chr":
+		return tar.TypeChar
 	}
 	return tar.TypeReg
 }
@@ -1060,6 +1097,12 @@ func prepLay(s scn, w *world, guard, out string, sp spelled) prepared {
 }
 
 func runScenario(ctx context.Context, s scn, w *world, root string, emit func(fact)) fact {
+	// an earlier operation may have removed the driver's own tree (a recorded, judged fact of THAT scenario): rebuild
+	must(os.MkdirAll(root, 0o777))
+	if _, err := os.Stat(filepath.Join(w.tpl, "index.json")); err != nil {
+		_ = os.RemoveAll(w.tpl)
+		buildTemplate(ctx, w.tpl, w)
+	}
 	guard := filepath.Join(root, fmt.Sprintf("g%d", s.ID))
 	must(os.Mkdir(guard, 0o777)) // start marker of the scenario
 	out := filepath.Join(guard, "out")
@@ -1069,6 +1112,15 @@ func runScenario(ctx context.Context, s scn, w *world, root string, emit func(fa
 	victim := filepath.Join(guard, "victim")
 	vbytes := []byte(fmt.Sprintf("VICTIM %d", s.ID))
 	must(os.WriteFile(victim, vbytes, 0o666))
+	// guard files and directories next to the designated directory: removal and modification are audited like creation
+	must(os.WriteFile(filepath.Join(guard, "neighbour.txt"), []byte("NEIGHBOUR"), 0o666))
+	must(os.MkdirAll(filepath.Join(guard, "sibdir", "deep"), 0o777))
+	must(os.WriteFile(filepath.Join(guard, "sibdir", "keep.txt"), []byte("KEEP"), 0o666))
+	must(os.WriteFile(filepath.Join(guard, "sibdir", "deep", "keep2.txt"), []byte("KEEP2"), 0o666))
+	above := filepath.Join(root, "above.txt")
+	if _, err := os.Lstat(above); err != nil {
+		must(os.WriteFile(above, []byte("ABOVE"), 0o666))
+	}
 	// a second victim far above the designated directory (five levels above out/blobs/sha256), re-created when missing
 	far := filepath.Join(filepath.Dir(root), "nm")
 	if _, err := os.Lstat(far); err != nil {
